@@ -111,11 +111,11 @@ theorem discipline (hD : D.KeepsVars) : ∀ fuel, Discipline D fuel := by
         · next es c' he =>
           cases h
           have hv := (evalRow_vars he).1
-          have hr : (D.respond σ.world ⟨es, line, true⟩ c').2.vars = σ.ctx.vars := (hD _ _ _).trans hv
+          have hr : (D.respond σ.world { entries := es, line := line, upd := true } c').2.vars = σ.ctx.vars := (hD _ _ _).trans hv
           refine ⟨?_, ?_⟩
-          · show (D.respond σ.world ⟨es, line, true⟩ c').2.vars.Inv
+          · show (D.respond σ.world { entries := es, line := line, upd := true } c').2.vars.Inv
             rw [hr]; exact hinv
-          · show (D.respond σ.world ⟨es, line, true⟩ c').2.scopes.tail = _
+          · show (D.respond σ.world { entries := es, line := line, upd := true } c').2.scopes.tail = _
             unfold Ctx.scopes; rw [hr]
         · cases h
       | resetRandom =>
